@@ -30,6 +30,8 @@ def _run_unit(args):
     try:
         import pydv
         pydv.setup_repo()
+        from pydv import core as _core
+        _core.UNIT_START[0] = time.time()
         mod = importlib.import_module("props." + prop)
         fn = dict(mod.units(tier))[uname]
         res = fn()
@@ -166,21 +168,28 @@ def main(argv=None):
     refuted = [e for e in refuted if e["kind"] != "canary"]
     proved = [e for e in proved if e["kind"] not in ("canary", "bounded")]
 
+    baseline_path = os.path.join(VERIF, "baseline", prop + ".json")
+    baseline = None
+    if os.path.exists(baseline_path):
+        baseline = json.load(open(baseline_path))
+    proved_before = set((baseline or {}).get(tier, (baseline or {}).get("quick", [])))
+
     known = load_known(prop)
     known_hit = []
     violations = []
+    undecided = []
+    refuted_ids = set(id(e) for e in refuted)
     for e in refuted + unknown:
         import fnmatch
         k = [f for f in known if f["obligation"] == e["name"] or fnmatch.fnmatchcase(e["name"], f["obligation"])]
         if k:
             known_hit.append((e, k[0]))
-        else:
+        elif id(e) in refuted_ids or e["name"] in proved_before:
+            # refuted, or an obligation that was discharged on the recorded tree and no longer is
             violations.append(e)
-
-    baseline_path = os.path.join(VERIF, "baseline", prop + ".json")
-    baseline = None
-    if os.path.exists(baseline_path):
-        baseline = json.load(open(baseline_path))
+        else:
+            # never discharged before and not refuted: a solver limit, not a verdict
+            undecided.append(e)
     missing = []
     if baseline is not None and not a.unit:
         have = {e["name"] for e in real_obl}
@@ -236,7 +245,7 @@ def main(argv=None):
         "functions_under_contract": meta.get("functions_under_contract", []),
         "units": [{"unit": r["unit"], "ok": r["ok"], "wall_s": round(r["wall_s"], 2)} for r in results],
         "known_findings_reported": [{"obligation": e["name"], "text": k["text"]} for e, k in known_hit],
-        "not_discharged": [{"obligation": e["name"], "refuted": e["refuted"], "unknown": e["unknown"]} for e in violations],
+        "not_discharged": [{"obligation": e["name"], "refuted": e["refuted"], "unknown": e["unknown"]} for e in violations + undecided],
         "canaries_refuted": len(canaries) - len(bad_canaries),
         "canaries": len(canaries),
         "covers_reached": sorted(covers),
@@ -298,7 +307,10 @@ def main(argv=None):
     if len(real_obl) < meta.get("min_obligations", 1):
         print("CHECKER-ERROR: only %d obligations generated (expected >= %d)" % (len(real_obl), meta.get("min_obligations", 1)))
         return 3
-    if engine_errors or missing:
+    if undecided:
+        for e in undecided[:20]:
+            print("  UNDECIDED-OBLIGATION %s: %s" % (e["name"], ((e["first_bad"] or {}).get("detail") or "")[:200]))
+    if engine_errors or missing or undecided:
         # the engine could not model some path: try the concrete oracle before giving up
         if hasattr(mod, "fallback_oracle") or hasattr(mod, "replay"):
             try:
@@ -311,7 +323,8 @@ def main(argv=None):
                 json.dump(fo, open(rpath, "w"), indent=1, default=str)
                 print("VIOLATION property=%s replay=%s obligation=concrete-oracle(engine could not model the code)" % (prop, rpath))
                 return 1
-        print("UNDECIDED property=%s engine_errors=%d missing_obligations=%s" % (prop, len(engine_errors), missing[:5]))
+        print("UNDECIDED property=%s engine_errors=%d undecided_obligations=%d missing_obligations=%s"
+              % (prop, len(engine_errors), len(undecided), missing[:5]))
         return 2
     return 0
 
